@@ -771,7 +771,8 @@ class History:
                     r2 = db.loadReadOnly(cycle, node, statePointName=label)
                 else:
                     r2 = db.load(cycle, node, cs=self.w.cs, bp=gen_reactor.fresh_blueprints(self.w), statePointName=label)
-            self._proj(r2, "probe")      # a query that raises on the loaded reactor is part of the same observation
+            # (a query that raises on the loaded reactor is part of the same observation)
+            nodes = self._proj(r2, "load@%d" % (len(self.ev) + 1))
         except Exception as ex:  # noqa: BLE001
             self.ev.append({"a": a, "post": {"exception": type(ex).__name__, "text": str(ex)[:300]}})
             self.dead = True
@@ -781,7 +782,6 @@ class History:
                 db.close()
         self.loaded[h] = r2
         self.loaded_at[h] = len(self.ev) + 1
-        nodes = self._proj(r2, "load@%d" % (len(self.ev) + 1))
         self.ev.append({"a": a, "post": {"state": nodes}})
         return True
 
@@ -1386,7 +1386,7 @@ def run(rep, tier, seed):
     # 2. spec -> code: TLC's trees, as real objects, through Database.writeToDB / Database.load
     eres, cases = generic_cases("Layout_emit%s.cfg" % sfx)
     rep.add_tlc("cases:Layout_emit%s.cfg" % sfx, eres)
-    ncase = 1200 if thorough else (150 if _SELFTEST else 260)
+    ncase = 1200 if thorough else (150 if _SELFTEST else 220)
     rng = random.Random(seed)
     sample = cases if len(cases) <= ncase else rng.sample(cases, ncase)
     if not sample or not any(not c["sortable"] for c in sample) or not any(c["sortable"] for c in sample):
